@@ -395,6 +395,14 @@ def c18_pipe_peer(path, role, script):
     return got
 
 
+class MyStr(str):
+    """A str subclass (as StrEnum members, numpy.str_, user tag classes are)."""
+
+
+class MyBytes(bytes):
+    pass
+
+
 def make_payload(spec):
     """JSON-able payload specs -> objects."""
     kind = spec[0]
@@ -409,7 +417,9 @@ def make_payload(spec):
         return (block * (n // 61 + 1))[:n]
     if kind == 'literal':
         return {'nl': b'\n', 'header': b'123 45 pickle\n', 'header2': b'7 3 none\nabc', 'empty': b'', 'zero': 0, 'false': False, 'estr': '', 'elist': [],
-                'edict': {}, 'fzero': 0.0, 'etuple': (), 'str-nl': 'line1\nline2\n', 'unicode': 'héllo ✓ 日本'}[spec[1]]
+                'edict': {}, 'fzero': 0.0, 'etuple': (), 'str-nl': 'line1\nline2\n', 'unicode': 'héllo ✓ 日本',
+                # a file name that is not valid UTF-8, decoded with surrogateescape; instances of str / bytes subclasses
+                'surrogate': 'name-\udcff\udc80.txt', 'strsub': MyStr('tagged text'), 'bytessub': MyBytes(b'tagged bytes'), 'true': True, 'none-in-list': [None]}[spec[1]]
     if kind == 'nested':
         n = spec[1]
         return {'k': [list(range(n)), {'a': ('t', n), 'b': [b'x' * n, None, 1.5]}], 'n': n, 's': 's' * n}
